@@ -118,7 +118,9 @@ def run(ctx):
     else:
         ctx.missing("C07.sort", "C07.sort:directions", "TieBreaker::cmp not found")
     f = w.fn(SR + "lexicographical_topological_sort")
-    dexs = D.Dex(w.lookup, adt_discr=w.adt_discr, ctors=w.ctors, unroll=1, inline=lambda n: False,
+    # helper functions nested in the sort (an extracted `ready_entry(node, key_fn)`) are part of it
+    dexs = D.Dex(w.lookup, adt_discr=w.adt_discr, ctors=w.ctors, unroll=1,
+                 inline=lambda n: n.startswith(SR + "lexicographical_topological_sort::") and "{closure" not in n and "<" not in n[len(SR):],
                  effects=lambda n: "BinaryHeap" in n or n.endswith("Vec::<T, A>::push") or n.endswith("Vec::<T>::push") or n.endswith("::is_empty") or n.endswith("HashSet::<T, S>::remove"),
                  max_paths=200000)
     try:
@@ -131,7 +133,7 @@ def run(ctx):
             conds = [(D.show_atom(a), t) for a, t in p.conds]
             for i, e in enumerate(p.effects):
                 m = e[0].rsplit("::", 1)[-1]
-                if m == "push" and ("BinaryHeap" in e[0] or "Reverse" in D.show(e[1][1])) and "TieBreaker" in D.show(e[1][1]):
+                if m == "push" and ("BinaryHeap" in e[0] or ("Reverse" in D.show(e[1][1]) and "TieBreaker" in D.show(e[1][1]))):
                     n_push += 1
                     # guarded by `is_empty(out-set)` true on this path
                     tb = D.show(e[1][1])
